@@ -439,6 +439,36 @@ func (r *c14Runner) Step(op string) string {
 			ms = "err"
 		}
 		return "P=" + ps + " M=" + ms
+	case "firstrace":
+		// firstrace <s> <first> <ents>: a reader's first FirstIndex() on the scope is paused right
+		// after it found no persisted log meta; a Save of <ents> completes meanwhile; the reader resumes
+		if len(f) != 4 {
+			return "bad-op"
+		}
+		s, e0 := strconv.Atoi(f[1])
+		first, e1 := strconv.ParseUint(f[2], 10, 64)
+		if e0 != nil || e1 != nil || s < 0 || s > 2 || first < 1 {
+			return "bad-op"
+		}
+		scope := c14Scope(s)
+		st := r.db.For(scope)
+		fired := false
+		var pe error
+		raftlog.VerifSetCurrentMetaAfterMetaLoadHook(r.db, func(sc raftlog.Scope) {
+			if fired || sc != scope {
+				return
+			}
+			fired = true
+			raftlog.VerifSetCurrentMetaAfterMetaLoadHook(r.db, nil)
+			pe = st.Save(ctx, multiraft.PersistentState{Entries: c14ParseEnts(first, f[3])})
+		})
+		_, _ = st.FirstIndex(ctx)
+		raftlog.VerifSetCurrentMetaAfterMetaLoadHook(r.db, nil)
+		if !fired {
+			pe = st.Save(ctx, multiraft.PersistentState{Entries: c14ParseEnts(first, f[3])})
+		}
+		me := r.mem[s].Save(ctx, multiraft.PersistentState{Entries: c14ParseEnts(first, f[3])})
+		return fmt.Sprintf("P=%s %s M=%s %s", c14Err(pe), c14Dump(st), c14Err(me), c14Dump(r.mem[s]))
 	case "term":
 		if len(f) != 3 {
 			return "bad-op"
